@@ -296,6 +296,23 @@ func propC17(c *Ctx) {
 		magic[p] = prefixes[i%len(prefixes)] + "\n" + prefixes[(i+5)%len(prefixes)] + "x\nzoo\n"
 		i++
 	}
+	// letters and combining marks beyond the Basic Multilingual Plane (CJK extension B, variation selectors
+	// supplement, musical and Brahmi marks, Adlam): anything that re-encodes characters (\uXXXX escapes with four
+	// hex digits, UTF-16 round trips, surrogate handling) is exact on the BMP and wrong here
+	astral := map[string]string{}
+	astralWords := []string{"\U00020000\U000E0100", "葛\U000E0100", "\U0001D15E\U0001D165", "\U00011013\U00011046\U00011013", "\U0001E900\U0001E944\U0001E94A",
+		"a\U0001D165b", "\U0002A6D6", "\U00010400\U00010428", "x\U000E01EF", "\U0001F600"}
+	i = 0
+	for p := range toolTargets {
+		var sb strings.Builder
+		for k := 0; k < 6; k++ {
+			sb.WriteString(astralWords[(i+k)%len(astralWords)])
+			sb.WriteString("\n")
+		}
+		astral[p] = sb.String()
+		i++
+	}
+	c.toolScenario(t, "supplementary-plane", astral, false)
 	c.toolScenario(t, "very-long-word", longs, false)
 	c.toolScenario(t, "magic-number-prefix", magic, false)
 	reps := 3 * c.scale
